@@ -30,7 +30,7 @@ STATE_MEASURE = 'distinct (rule key set, near-miss kind, matched?) triples at pr
 PROBES = ['signal-matches-some-rule', 'near-miss-path-sibling', 'near-miss-namespace-sibling',
           'arg-missing', 'arg-non-string', 'argpath-trailing-slash-rule', 'argpath-trailing-slash-arg',
           'type-constraint-other', 'signal-while-add-pending', 'signal-while-del-pending',
-          'signal-after-removal', 'callback-raised', 'callback-without-a-name', 'subscription-cancelled-twice', 'two-senders-same-serial-back-to-back', 'addmatch-refused', 'rule-cancelled-from-its-callback', 'callable-shared-by-rules', 'shared-callable-ran-per-rule', 'proxy-signal-right-signature',
+          'signal-after-removal', 'callback-raised', 'callback-without-a-name', 'subscription-cancelled-twice', 'subscription-cancelled-before-the-reply', 'two-senders-same-serial-back-to-back', 'addmatch-refused', 'rule-cancelled-from-its-callback', 'callable-shared-by-rules', 'shared-callable-ran-per-rule', 'proxy-signal-right-signature',
           'proxy-signal-wrong-signature', 'two-rules-one-signal', 'apostrophe-in-value',
           'empty-body-with-arg-rule', 'proxy-subscription-without-interface',
           'same-rule-id-on-two-connections']
@@ -238,6 +238,8 @@ def scenario(ctx):
                 sim.probe('callback-raised')
                 if rules[idx]['raises'] == 2:
                     raise SimCancelled('callback %d cancelled' % idx)
+                if idx % 2:
+                    raise TypeError('callback %d fails: unsupported operand' % idx)
                 raise RuntimeError('callback %d fails' % idx)
     holders = {}
     stashed = []
@@ -277,7 +279,7 @@ def scenario(ctx):
             which = ds.pick([None, 'org.sim.I1', 'org.sim.I2'])
             dd = d_sig2 if which == 'org.sim.I2' else d_sig
             spec = {'mtype': 'signal', 'path': '/a/b', 'member': sname, 'interface': dd.name}
-            r = {'spec': spec, 'state': 'adding', 'raises': False, 'proxy_sig': dict(dd.signals)[sname],
+            r = {'spec': spec, 'state': 'adding', 'raises': ds.weighted([6, 0.7, 0.5]), 'proxy_sig': dict(dd.signals)[sname],
                  'id': None, 'which': which, 'oneshot': ds.flag(0.15)}
             rules.append(r)
             scan_sent()
@@ -330,6 +332,15 @@ def scenario(ctx):
             return rid
         d.addCallback(done)
         d.addErrback(lambda f: sim.log('add-failed', idx))
+        r['d'] = d
+        if ds.flag(0.06):
+            # the subscriber gives up before the daemon answered (d.cancel(), addTimeout): the
+            # callback it handed over is never to run, whatever arrives later
+            r['state'] = 'gone'
+            r['cancelled'] = True
+            sim.probe('subscription-cancelled-before-the-reply')
+            sim.log('op', 'cancel-add', idx)
+            rig.call(d.cancel)
 
     def op_del():
         act = [i for i, r in enumerate(rules) if r['state'] == 'active' and r['id'] is not None]
@@ -431,7 +442,7 @@ def scenario(ctx):
             end, kind, payload = frames.pop(0)
             if kind == 'reply':
                 idx, what = pending_calls.pop(payload, (None, None))
-                if idx is not None:
+                if idx is not None and not rules[idx].get('cancelled'):
                     rules[idx]['state'] = 'active' if what == 'add' else 'gone'
                 continue
             if kind == 'refusal':
